@@ -995,7 +995,7 @@ Theorem key_ignores_unhashed r r' :
   hashed_args (rq_args r') = hashed_args (rq_args r) ->
   match rq_lang r with
   | LangC =>
-      profile_out r' = profile_out r /\
+      profile_out r' = profile_out r /\ split_out r' = split_out r /\
       Permutation (filter (fun e => c_env_hashed (fst e)) (rq_env r'))
                   (filter (fun e => c_env_hashed (fst e)) (rq_env r))
   | LangRust =>
@@ -1009,7 +1009,7 @@ Theorem key_ignores_unhashed r r' :
   fingerprint_of r' = fingerprint_of r.
 Proof.
   intros Hl Hc Hi Ha H. unfold fingerprint_of. rewrite Hl. destruct (rq_lang r).
-  - destruct H as [Hp H]. rewrite Hc, Hi, Ha, Hp, (isort_pair_perm _ _ H). reflexivity.
+  - destruct H as (Hp & Hsd & H). rewrite Hc, Hi, Ha, Hp, Hsd, (isort_pair_perm _ _ H). reflexivity.
   - destruct H as (H1 & H2 & H3 & H4 & H5).
     rewrite Hc, Hi, Ha, H5, (isort_bytes_perm _ _ H1), (isort_ext_perm _ _ H2),
       (isort_pair_perm _ _ H3), (isort_pair_perm _ _ H4). reflexivity.
@@ -1038,16 +1038,20 @@ Proof. induction l as [|[] r IH]; simpl; congruence. Qed.
 Lemma retarget_profile p l : has_profile (retarget_args p l) = has_profile l.
 Proof. induction l as [|[] r IH]; simpl; congruence. Qed.
 
-(* the output name does not matter — unless the object is instrumented for coverage / profiling, where the
-   compiler embeds a location derived from it *)
+(* the output name does not matter — unless the object is instrumented for coverage / profiling or split
+   DWARF is requested, where the compiler embeds a location derived from it *)
+Lemma retarget_split p l : has_split (retarget_args p l) = has_split l.
+Proof. induction l as [|[] r IH]; simpl; congruence. Qed.
+
 Theorem key_ignores_output r p outs tag :
-  rq_lang r = LangRust \/ has_profile (rq_args r) = false ->
+  rq_lang r = LangRust \/ (has_profile (rq_args r) = false /\ has_split (rq_args r) = false) ->
   fingerprint_of (retarget r p outs tag) = fingerprint_of r.
 Proof.
   intros Hnp. apply key_ignores_unhashed; simpl; auto using retarget_hashed.
   destruct (rq_lang r) eqn:L.
-  - destruct Hnp as [Hnp|Hnp]; [discriminate|]. split; [|reflexivity].
-    unfold profile_out. simpl. rewrite retarget_profile, Hnp. reflexivity.
+  - destruct Hnp as [Hnp|[Hnp Hns]]; [discriminate|]. split; [|split; [|reflexivity]].
+    + unfold profile_out. simpl. rewrite retarget_profile, Hnp. reflexivity.
+    + unfold split_out. simpl. rewrite retarget_split, Hns. reflexivity.
   - rewrite retarget_cfg, retarget_ext. auto.
 Qed.
 
@@ -1067,7 +1071,7 @@ Theorem key_ignores_env r env' :
   fingerprint_of (with_env r env') = fingerprint_of r.
 Proof.
   intros H. apply key_ignores_unhashed; simpl; auto.
-  destruct (rq_lang r); simpl in *; [split; [reflexivity|exact H]|]. auto.
+  destruct (rq_lang r); simpl in *; [split; [reflexivity|split; [reflexivity|exact H]]|]. auto.
 Qed.
 
 (* ====================================================================== *)
